@@ -248,7 +248,7 @@ def file_path_var(fil):
     return o.group(1) if o and o.group(1) in names else None
 
 
-def read_cmdline(cb, run):
+def read_cmdline(cb, run, src_all=None):
     """cmdline.c: the text printed when the path is missing too (read from the branch taken when ...->filename is NULL, either polarity of the test),
     and the separator printed before every non-first argument (the only literal other than "%s" printed at a running offset)"""
     unknown = sep = None
@@ -272,6 +272,34 @@ def read_cmdline(cb, run):
     seps = [x for x in offs if x != b"%s"]
     if len(offs) == 2 and len(seps) == 1:
         sep = seps[0]
+    if sep is None and src_all is not None:
+        # helper form: a file-local static function whose body is the one guarded `off += snprintf(buf + off, size - off, "%s", <own parameter>)`,
+        # called once with a literal (the separator) and once with an argv element
+        for hm in re.finditer(r"^\s*static\s+[\w\s\*]+?\b(\w+)\s*\(([^;{]*)\)\s*\{", src_all, re.M):
+            hname, hpars = hm.group(1), [x.strip().split()[-1].lstrip("*") for x in hm.group(2).split(",") if x.strip()]
+            hb = func_body(src_all, hname) or ""
+            pr = re.findall(r"snprintf\s*\(\s*(\w+)\s*\+\s*(\w+)\s*,\s*(\w+)\s*-\s*(\w+)\s*,\s*" + STR + r"\s*,\s*(\w+)\s*\)", hb)
+            if len(pr) != 1 or len(re.findall(r"\bsnprintf\s*\(", hb)) != 1:
+                continue
+            b_, o1, sz, o2, fmt, sarg = pr[0]
+            if c_unescape(fmt) != b"%s" or o1 != o2 or not all(x in hpars for x in (b_, o1, sz, sarg)):
+                continue
+            if not re.search(r"if\s*\(\s*%s\s*<\s*%s\s*\)" % (re.escape(o1), re.escape(sz)), hb) or not re.search(r"return\s+%s\s*;" % re.escape(o1), hb):
+                continue
+            k = hpars.index(sarg)
+            calls = re.findall(r"\b%s\s*\(([^;]*?)\)\s*;" % re.escape(hname), cb)
+            lits, others = [], 0
+            for a in calls:
+                args = [x.strip() for x in a.split(",")]
+                if len(args) != len(hpars):
+                    continue
+                mm = re.fullmatch(STR, args[k])
+                if mm:
+                    lits.append(c_unescape(mm.group(1)))
+                else:
+                    others += 1
+            if len(lits) == 1 and others == 1 and b"%" not in lits[0]:
+                sep = lits[0]
     if unknown is None:
         run.notes.append("translator: cmdline.c: the both-missing fallback (if filename is NULL: fixed text, else the path) not recognised")
     if sep is None:
@@ -349,7 +377,7 @@ def tr_expand(run):
     w["failure_text"] = c_unescape(m.group(1)) if m else None
     cmd = strip_comments(run.src("src/datasource/cmdline.c"))
     cb = func_body(cmd, "snoopy_datasource_cmdline") or ""
-    w["cmdline_unknown"], w["cmdline_sep"] = read_cmdline(cb, run)
+    w["cmdline_unknown"], w["cmdline_sep"] = read_cmdline(cb, run, cmd)
     order2 = ["sep", "unknown"]
     v2 = {"sep": w["cmdline_sep"], "unknown": w["cmdline_unknown"]}
     js2, tsv2 = emit(run, "cmdline", "Cmdline", "cmdline_consts", "From Snoopy Require Import Lib.CStr Datasource.Cmdline.", v2, order2, {"sep": b"", "unknown": b""})
